@@ -13,6 +13,7 @@ import (
 	"sort"
 	"strconv"
 	"strings"
+	"sync"
 	"time"
 )
 
@@ -385,13 +386,42 @@ func runCheck(repo, verif, prop, tier string, seed int, updateExpected, verbose 
 		os.RemoveAll(replayDir)
 	}
 	exit := 0
+	// counterexamples are extracted and replayed for the first few
+	// violations only (each costs a model query and a go test run), in
+	// parallel; the others are reported with the solver's output alone
+	const replayBudget = 8
+	os.MkdirAll(replayDir, 0o755)
+	type rr struct {
+		path      string
+		confirmed bool
+	}
+	res := make([]rr, len(viols))
+	var wg sync.WaitGroup
+	sem := make(chan struct{}, 4)
+	for i := range viols {
+		if i >= replayBudget {
+			v := viols[i].r
+			v.ctx = nil
+			v.Status = v.Status + " (no replay attempted: replay budget of this run used up by earlier violations)"
+			path, _ := writeReplay(e, replayDir, v, repo)
+			res[i] = rr{path, false}
+			continue
+		}
+		wg.Add(1)
+		go func(i int) {
+			defer wg.Done()
+			sem <- struct{}{}
+			defer func() { <-sem }()
+			path, confirmed := writeReplay(e, replayDir, viols[i].r, repo)
+			res[i] = rr{path, confirmed}
+		}(i)
+	}
+	wg.Wait()
 	for i := range viols {
 		v := &viols[i]
-		os.MkdirAll(replayDir, 0o755)
-		path, confirmed := writeReplay(e, replayDir, v.r, repo)
-		v.replay = path
-		line := fmt.Sprintf("VIOLATION property=%s replay=%s obligation=%s", prop, path, v.r.Name)
-		if !confirmed {
+		v.replay = res[i].path
+		line := fmt.Sprintf("VIOLATION property=%s replay=%s obligation=%s", prop, res[i].path, v.r.Name)
+		if !res[i].confirmed {
 			line += " no-failing-input-found"
 		}
 		fmt.Println(line)
